@@ -1,6 +1,1221 @@
-//! C19 — implementation side of the correspondence (stub).
+//! C19 — implementation side: Path API (in-process), Explorer over HTTP (child process running the
+//! real `serve()`), on-demand checker driven directly (in-process, watchdogs).
+use srh::graph_small::{exp_letter, GenCfg, GraphModel};
 use srh::out::*;
+use srh::rng::Rng;
+use stateright::actor::{Actor, ActorModel, Id, LossyNetwork, Network, Out as AOut};
+use stateright::{Checker, Expectation, Model, Path, StateRecorder};
+use std::borrow::Cow;
+use std::collections::HashMap;
+use std::fmt::Debug;
+use std::hash::Hash;
+use std::io::{BufRead, Read, Write};
+use std::net::{SocketAddr, TcpListener, TcpStream};
+use std::process::{Child, Command, Stdio};
+use std::sync::{Arc, Mutex};
+use std::time::{Duration, Instant};
+
+// =============================================================================================
+// small actor systems served by the Explorer
+
+#[derive(Clone, Debug, PartialEq, Eq, Hash)]
+enum PMsg {
+    Ping(u32),
+    Pong(u32),
+}
+#[derive(Clone)]
+struct PingPong {
+    max: u32,
+    timer: bool,
+}
+impl Actor for PingPong {
+    type Msg = PMsg;
+    type Timer = u8;
+    type State = u32;
+    type Random = ();
+    fn on_start(&self, id: Id, o: &mut AOut<Self>) -> u32 {
+        if usize::from(id) == 0 {
+            o.send(Id::from(1), PMsg::Ping(0));
+            if self.timer {
+                o.set_timer(1, Duration::from_secs(1)..Duration::from_secs(2));
+            }
+        }
+        0
+    }
+    fn on_msg(&self, _id: Id, state: &mut Cow<u32>, src: Id, msg: PMsg, o: &mut AOut<Self>) {
+        match msg {
+            PMsg::Ping(n) => {
+                *state.to_mut() = n + 1;
+                o.send(src, PMsg::Pong(n));
+            }
+            PMsg::Pong(n) => {
+                if n < self.max {
+                    *state.to_mut() = n + 1;
+                    o.send(src, PMsg::Ping(n + 1));
+                }
+            }
+        }
+    }
+    fn on_timeout(&self, _id: Id, state: &mut Cow<u32>, _t: &u8, _o: &mut AOut<Self>) {
+        *state.to_mut() = 100 + **state;
+    }
+}
+type PPModel = ActorModel<PingPong, (), ()>;
+
+/// `spec` = `max:network:lossy:timer`, e.g. `1:ordered:n:n`
+fn actor_model(spec: &str) -> PPModel {
+    let p: Vec<&str> = spec.split(':').collect();
+    let max: u32 = p[0].parse().unwrap();
+    let net = match p[1] {
+        "ordered" => Network::new_ordered([]),
+        "dup" => Network::new_unordered_duplicating([]),
+        _ => Network::new_unordered_nonduplicating([]),
+    };
+    let lossy = if p[2] == "y" { LossyNetwork::Yes } else { LossyNetwork::No };
+    let timer = p[3] == "y";
+    ActorModel::new((), ())
+        .actor(PingPong { max, timer })
+        .actor(PingPong { max, timer })
+        .init_network(net)
+        .lossy_network(lossy)
+        .property(Expectation::Always, "bounded", |_, s| s.actor_states.iter().all(|x| **x % 100 <= 3))
+        .property(Expectation::Sometimes, "second ping", |_, s| *s.actor_states[1] % 100 >= 2)
+        .property(Expectation::Eventually, "pong seen", |_, s| *s.actor_states[0] % 100 >= 1)
+        .property(Expectation::Always, "true", |_, _| true)
+        .within_boundary(|_, s| s.actor_states.iter().all(|x| **x < 150))
+}
+
+// =============================================================================================
+// explicit unfolding of any model (what the Lean side is told)
+
+struct Explicit {
+    fps: Vec<u64>,
+    texts: Vec<String>,
+    init: Vec<usize>,
+    edges: Vec<Vec<(usize, Option<usize>)>>,
+    labels: Vec<String>,
+    bnd: Vec<bool>,
+    props: Vec<(Expectation, &'static str, Vec<bool>)>,
+    by_fp: HashMap<u64, usize>,
+}
+
+fn explicit<M>(m: &M, cap: usize) -> Option<Explicit>
+where
+    M: Model,
+    M::State: Hash + Debug + Clone + PartialEq,
+    M::Action: Debug,
+{
+    let mut states: Vec<M::State> = Vec::new();
+    let mut e = Explicit {
+        fps: vec![],
+        texts: vec![],
+        init: vec![],
+        edges: vec![],
+        labels: vec![],
+        bnd: vec![],
+        props: vec![],
+        by_fp: HashMap::new(),
+    };
+    fn intern<S: Hash + Debug + Clone + PartialEq>(e: &mut Explicit, states: &mut Vec<S>, s: S) -> Option<usize> {
+        let fp = stateright::verif::fingerprint(&s);
+        if let Some(i) = e.by_fp.get(&fp) {
+            if states[*i] != s {
+                return None; // a real fingerprint collision: give up on this model
+            }
+            return Some(*i);
+        }
+        let i = states.len();
+        e.by_fp.insert(fp, i);
+        e.fps.push(fp);
+        e.texts.push(format!("{:#?}", s));
+        states.push(s);
+        Some(i)
+    }
+    for s in m.init_states() {
+        let i = intern(&mut e, &mut states, s)?;
+        e.init.push(i);
+    }
+    let mut k = 0;
+    while k < states.len() {
+        if states.len() > cap {
+            return None;
+        }
+        let s = states[k].clone();
+        let mut acts = Vec::new();
+        let mut acts2 = Vec::new();
+        m.actions(&s, &mut acts);
+        m.actions(&s, &mut acts2);
+        let mut row = Vec::new();
+        for (a, a2) in acts.into_iter().zip(acts2) {
+            let text = m.format_action(&a);
+            let l = match e.labels.iter().position(|x| *x == text) {
+                Some(l) => l,
+                None => {
+                    e.labels.push(text);
+                    e.labels.len() - 1
+                }
+            };
+            let t = match m.next_state(&s, a2) {
+                Some(t) => Some(intern(&mut e, &mut states, t)?),
+                None => None,
+            };
+            row.push((l, t));
+        }
+        e.edges.push(row);
+        k += 1;
+    }
+    e.bnd = states.iter().map(|s| m.within_boundary(s)).collect();
+    for p in m.properties() {
+        e.props.push((p.expectation.clone(), p.name, states.iter().map(|s| (p.condition)(m, s)).collect()));
+    }
+    Some(e)
+}
+
+impl Explicit {
+    fn lst(v: &[bool]) -> String {
+        format!("(l {})", v.iter().enumerate().filter(|(_, b)| **b).map(|(i, _)| i.to_string()).collect::<Vec<_>>().join(" "))
+    }
+    fn sx(&self) -> String {
+        let edges: Vec<String> = self
+            .edges
+            .iter()
+            .map(|es| {
+                format!(
+                    "({})",
+                    es.iter()
+                        .map(|(l, t)| match t {
+                            Some(t) => format!("({} {})", l, t),
+                            None => format!("({} x)", l),
+                        })
+                        .collect::<Vec<_>>()
+                        .join(" ")
+                )
+            })
+            .collect();
+        format!(
+            "(g {} ({}) ({}) {} ({}))",
+            self.fps.len(),
+            self.init.iter().map(|s| s.to_string()).collect::<Vec<_>>().join(" "),
+            edges.join(" "),
+            Self::lst(&self.bnd),
+            self.props.iter().map(|(e, _, t)| format!("({} {})", exp_letter(e), Self::lst(t))).collect::<Vec<_>>().join(" ")
+        )
+    }
+    fn fps_sx(&self) -> String {
+        format!("({})", self.fps.iter().map(|f| f.to_string()).collect::<Vec<_>>().join(" "))
+    }
+    /// state sequences of all executions with at most `depth` states (one per distinct state sequence)
+    fn paths(&self, depth: usize, cap: usize) -> Vec<Vec<usize>> {
+        let mut out = Vec::new();
+        let mut stack: Vec<Vec<usize>> = Vec::new();
+        let mut seen = Vec::new();
+        for s in &self.init {
+            if !seen.contains(s) {
+                seen.push(*s);
+                stack.push(vec![*s]);
+            }
+        }
+        stack.reverse();
+        while let Some(p) = stack.pop() {
+            if out.len() >= cap {
+                break;
+            }
+            out.push(p.clone());
+            if p.len() >= depth {
+                continue;
+            }
+            let mut nexts: Vec<usize> = Vec::new();
+            for (_, t) in &self.edges[*p.last().unwrap()] {
+                if let Some(t) = t {
+                    if !nexts.contains(t) {
+                        nexts.push(*t);
+                    }
+                }
+            }
+            for t in nexts.into_iter().rev() {
+                let mut q = p.clone();
+                q.push(t);
+                stack.push(q);
+            }
+        }
+        out
+    }
+    fn url(&self, p: &[usize]) -> String {
+        p.iter().map(|s| format!("/{}", self.fps[*s])).collect()
+    }
+}
+
+fn hex(s: &str) -> String {
+    if s.is_empty() {
+        "-".into()
+    } else {
+        s.bytes().map(|b| format!("{:02x}", b)).collect()
+    }
+}
+
+// =============================================================================================
+// HTTP
+
+fn http(port: u16, method: &str, path: &str) -> Result<(u16, Vec<u8>), String> {
+    let addr: SocketAddr = format!("127.0.0.1:{}", port).parse().unwrap();
+    let mut s = TcpStream::connect_timeout(&addr, Duration::from_secs(2)).map_err(|e| format!("connect: {}", e))?;
+    s.set_read_timeout(Some(Duration::from_secs(8))).ok();
+    s.set_write_timeout(Some(Duration::from_secs(4))).ok();
+    let req = format!("{} {} HTTP/1.0\r\nHost: localhost\r\nContent-Length: 0\r\nConnection: close\r\n\r\n", method, path);
+    s.write_all(req.as_bytes()).map_err(|e| format!("write: {}", e))?;
+    let mut buf = Vec::new();
+    s.read_to_end(&mut buf).map_err(|e| format!("read: {}", e))?;
+    let pos = buf.windows(4).position(|w| w == b"\r\n\r\n").ok_or("no header end")?;
+    let head = String::from_utf8_lossy(&buf[..pos]).to_string();
+    let mut body = buf[pos + 4..].to_vec();
+    let status: u16 = head.split(' ').nth(1).and_then(|x| x.parse().ok()).ok_or("bad status line")?;
+    if head.to_ascii_lowercase().contains("transfer-encoding: chunked") {
+        let mut out = Vec::new();
+        let mut rest = &body[..];
+        loop {
+            let nl = match rest.windows(2).position(|w| w == b"\r\n") {
+                Some(p) => p,
+                None => break,
+            };
+            let n = usize::from_str_radix(String::from_utf8_lossy(&rest[..nl]).trim(), 16).unwrap_or(0);
+            if n == 0 {
+                break;
+            }
+            out.extend_from_slice(&rest[nl + 2..nl + 2 + n]);
+            rest = &rest[nl + 2 + n + 2..];
+        }
+        body = out;
+    }
+    Ok((status, body))
+}
+
+struct KillOnDrop(Child);
+impl Drop for KillOnDrop {
+    fn drop(&mut self) {
+        let _ = self.0.kill();
+        let _ = self.0.wait();
+    }
+}
+
+static PORT_LOCK: Mutex<()> = Mutex::new(());
+fn free_tcp_port() -> u16 {
+    let _g = PORT_LOCK.lock().unwrap();
+    let l = TcpListener::bind("127.0.0.1:0").unwrap();
+    l.local_addr().unwrap().port()
+}
+
+/// start `serve()` in a child; returns once the port answers
+fn start_server(kind: &str, spec: &str) -> Result<(KillOnDrop, u16), String> {
+    let exe = std::env::current_exe().map_err(|e| e.to_string())?;
+    let mut last = String::new();
+    for _ in 0..3 {
+        let port = free_tcp_port();
+        let child = Command::new(&exe)
+            .args(["--child-serve", &port.to_string(), kind, spec])
+            .stdin(Stdio::piped())
+            .stdout(Stdio::null())
+            .stderr(Stdio::null())
+            .spawn()
+            .map_err(|e| e.to_string())?;
+        let mut child = KillOnDrop(child);
+        let t0 = Instant::now();
+        while t0.elapsed() < Duration::from_secs(4) {
+            if let Ok(Some(st)) = child.0.try_wait() {
+                last = format!("server child exited early: {:?}", st);
+                break;
+            }
+            if let Ok((200, _)) = http(port, "GET", "/.status") {
+                return Ok((child, port));
+            }
+            std::thread::sleep(Duration::from_millis(10));
+        }
+        if last.is_empty() {
+            last = "server did not answer within 4 s".into();
+        }
+    }
+    Err(last)
+}
+
+fn child_serve(args: &[String]) -> ! {
+    let port: u16 = args[0].parse().unwrap();
+    // parent gone (stdin EOF) or 90 s => exit
+    std::thread::spawn(|| {
+        let stdin = std::io::stdin();
+        let mut line = String::new();
+        loop {
+            line.clear();
+            match stdin.lock().read_line(&mut line) {
+                Ok(0) | Err(_) => std::process::exit(0),
+                Ok(_) => {}
+            }
+        }
+    });
+    std::thread::spawn(|| {
+        std::thread::sleep(Duration::from_secs(90));
+        std::process::exit(3);
+    });
+    match args[1].as_str() {
+        "g" => {
+            let mut g = GraphModel::parse(&args[2]).expect("graph");
+            g.svg = true;
+            let _ = g.checker().serve(("127.0.0.1", port));
+        }
+        _ => {
+            let _ = actor_model(&args[2]).checker().serve(("127.0.0.1", port));
+        }
+    }
+    std::process::exit(4)
+}
+
+// =============================================================================================
+// Explorer session for one model
+
+#[derive(Default)]
+struct Emit {
+    m: Vec<(String, String)>,
+    o: Vec<String>,
+    v: Vec<(String, String)>,
+    stats: Vec<(String, u64)>,
+    sample: Option<String>,
+    distinct: Vec<String>,
+}
+impl Emit {
+    fn stat(&mut self, k: &str, n: u64) {
+        self.stats.push((k.to_string(), n));
+    }
+}
+
+/// "0,A1,2" (GraphModel::as_svg) -> "(0 l 2)" with interned label ids
+fn svg_to_path(e: &Explicit, svg: &str) -> String {
+    let items: Vec<String> = svg
+        .split(',')
+        .map(|x| {
+            if x.starts_with('A') {
+                e.labels.iter().position(|l| l == x).map(|l| l.to_string()).unwrap_or(format!("?{}", x))
+            } else {
+                // states of a GraphModel are numbers; their id in the unfolding goes through the text
+                e.texts.iter().position(|t| t == x).map(|i| i.to_string()).unwrap_or(format!("?{}", x))
+            }
+        })
+        .collect();
+    format!("({})", items.join(" "))
+}
+
+/// decode "fp/fp/fp" into state ids
+fn decode_path(e: &Explicit, s: &str) -> Option<Vec<usize>> {
+    s.split('/').map(|x| x.parse::<u64>().ok().and_then(|fp| e.by_fp.get(&fp).copied())).collect()
+}
+
+struct ViewRes {
+    model_form: String,  // compared with the model (`view`)
+    oracle_form: String, // handed to `o-view`
+    props: Vec<serde_json::Value>,
+}
+
+fn canon_states_answer(e: &Explicit, status: u16, body: &[u8], with_path: bool, strict_text: bool, em: &mut Emit) -> ViewRes {
+    let text = String::from_utf8_lossy(body).to_string();
+    if status == 404 {
+        let k = if text.starts_with("Unable to parse fingerprints") {
+            "404-parse"
+        } else if text.starts_with("Unable to find state following fingerprints") {
+            "404-nostate"
+        } else {
+            "404-other"
+        };
+        return ViewRes { model_form: k.into(), oracle_form: k.into(), props: vec![] };
+    }
+    if status != 200 {
+        return ViewRes { model_form: format!("status-{}", status), oracle_form: format!("status-{}", status), props: vec![] };
+    }
+    let v: serde_json::Value = match serde_json::from_slice(body) {
+        Ok(v) => v,
+        Err(_) => return ViewRes { model_form: "bad-json".into(), oracle_form: "bad-json".into(), props: vec![] },
+    };
+    let mut mrows = Vec::new();
+    let mut orows = Vec::new();
+    let mut props = Vec::new();
+    for row in v.as_array().cloned().unwrap_or_default() {
+        let action = row.get("action").and_then(|x| x.as_str());
+        let state = row.get("state").and_then(|x| x.as_str());
+        let fp = row.get("fingerprint").and_then(|x| x.as_str());
+        let svg = row.get("svg").and_then(|x| x.as_str());
+        if let Some(p) = row.get("properties") {
+            props.push(p.clone());
+        }
+        let label = action.map(|a| e.labels.iter().position(|l| l == a).map(|l| l.to_string()).unwrap_or(format!("?{}", a.replace(' ', "_"))));
+        match (label, state, fp) {
+            (l, Some(st), Some(fp)) => {
+                let sid = fp.parse::<u64>().ok().and_then(|f| e.by_fp.get(&f).copied());
+                let sid_s = sid.map(|i| i.to_string()).unwrap_or("?".into());
+                if let Some(i) = sid {
+                    if e.texts[i] != st {
+                        if strict_text {
+                            em.v.push(("state-text".into(), format!("fingerprint {} shown with state {:?}, expected {:?}", fp, st, e.texts[i])));
+                        } else {
+                            em.stat("explorer-state-text-differs-in-hash-order", 1);
+                        }
+                    }
+                    if strict_text {
+                        // default format_step: the outcome is the pretty-printed next state
+                        if l.is_some() && row.get("outcome").and_then(|x| x.as_str()) != Some(st) {
+                            em.v.push(("outcome".into(), format!("outcome {:?} for next state {:?}", row.get("outcome"), st)));
+                        }
+                    }
+                }
+                let head = l.clone().unwrap_or("i".into());
+                let path = if with_path { format!(" {}", svg.map(|s| svg_to_path(e, s)).unwrap_or("nosvg".into())) } else { String::new() };
+                mrows.push(format!("({} {} {}{})", head, sid_s, fp, path));
+                orows.push(format!("({} {})", head, sid_s));
+            }
+            (Some(l), None, None) => {
+                mrows.push(format!("({} x)", l));
+                orows.push(format!("({} x)", l));
+            }
+            _ => {
+                mrows.push("(malformed-row)".into());
+                orows.push("(malformed-row)".into());
+            }
+        }
+    }
+    if !with_path {
+        mrows.sort();
+        orows.sort();
+    }
+    ViewRes { model_form: format!("({})", mrows.join(" ")), oracle_form: format!("({})", orows.join(" ")), props }
+}
+
+/// properties triple list `[[exp, name, disc|null], ...]` -> (discs as "(i (states))", names ok?)
+fn canon_props(e: &Explicit, v: &serde_json::Value, em: &mut Emit, what: &str) -> Vec<(usize, Vec<usize>)> {
+    let mut discs = Vec::new();
+    let arr = v.as_array().cloned().unwrap_or_default();
+    if arr.len() != e.props.len() {
+        em.v.push(("property-list".into(), format!("{}: {} triples for {} properties", what, arr.len(), e.props.len())));
+        return discs;
+    }
+    for (i, t) in arr.iter().enumerate() {
+        let exp = t.get(0).and_then(|x| x.as_str()).unwrap_or("");
+        let name = t.get(1).and_then(|x| x.as_str()).unwrap_or("");
+        let want = format!("{:?}", e.props[i].0);
+        if exp != want || name != e.props[i].1 {
+            em.v.push(("property-triple".into(), format!("{}: triple {} is ({}, {}), model has ({}, {})", what, i, exp, name, want, e.props[i].1)));
+        }
+        if let Some(d) = t.get(2).and_then(|x| x.as_str()) {
+            match decode_path(e, d) {
+                Some(p) => discs.push((i, p)),
+                None => em.v.push(("discovery-undecodable".into(), format!("{}: property {} discovery {:?} contains an unknown fingerprint", what, name, d))),
+            }
+        }
+    }
+    discs
+}
+
+fn discs_sx(d: &[(usize, Vec<usize>)]) -> String {
+    format!("({})", d.iter().map(|(i, p)| format!("({} ({}))", i, p.iter().map(|s| s.to_string()).collect::<Vec<_>>().join(" "))).collect::<Vec<_>>().join(" "))
+}
+
+struct BfsRef {
+    unique: usize,
+    state_count: usize,
+    discovered: Vec<&'static str>,
+    exhaustive: bool,
+}
+fn bfs_reference<M>(m: M) -> BfsRef
+where
+    M: Model + Send + Sync + 'static,
+    M::State: Hash + Send + Sync + 'static,
+{
+    let n_props = m.properties().len();
+    let c = m.checker().spawn_bfs().join();
+    let mut discovered: Vec<&'static str> = c.discoveries().keys().copied().collect();
+    discovered.sort();
+    BfsRef { unique: c.unique_state_count(), state_count: c.state_count(), exhaustive: discovered.len() < n_props, discovered }
+}
+
+fn explorer_session(kind: &str, spec: &str, e: &Explicit, bfs: &BfsRef, r: &mut Rng, thorough: bool, extra_http: bool) -> Emit {
+    let mut em = Emit::default();
+    let gsx = e.sx();
+    let fsx = e.fps_sx();
+    let is_graph = kind == "g";
+    let mode = if is_graph { "p" } else { "s" };
+    let (child, port) = match start_server(kind, spec) {
+        Ok(x) => x,
+        Err(err) => {
+            em.v.push(("hang".into(), format!("Explorer could not be started for {} {}: {}", kind, spec, err)));
+            return em;
+        }
+    };
+    let get = |path: &str| http(port, "GET", path);
+    // ---- initial status ---------------------------------------------------------------------
+    let init_b: Vec<usize> = e.init.iter().copied().filter(|s| e.bnd[*s]).collect();
+    let expect_done0 = e.props.is_empty() || init_b.is_empty();
+    let mut st0 = None;
+    let t0 = Instant::now();
+    while t0.elapsed() < Duration::from_secs(3) {
+        match get("/.status") {
+            Ok((200, body)) => {
+                if let Ok(v) = serde_json::from_slice::<serde_json::Value>(&body) {
+                    let done = v.get("done").and_then(|x| x.as_bool()).unwrap_or(false);
+                    st0 = Some(v);
+                    if done == expect_done0 {
+                        break;
+                    }
+                }
+            }
+            Ok((s, _)) => {
+                em.v.push(("status-endpoint".into(), format!("GET /.status answered {}", s)));
+                break;
+            }
+            Err(err) => {
+                em.v.push(("hang".into(), format!("GET /.status: {}", err)));
+                return em;
+            }
+        }
+        std::thread::sleep(Duration::from_millis(10));
+    }
+    if let Some(v) = &st0 {
+        let props = v.get("properties").cloned().unwrap_or(serde_json::Value::Null);
+        let discs = canon_props(e, &props, &mut em, "initial status");
+        let ptxt: Vec<String> = e
+            .props
+            .iter()
+            .enumerate()
+            .map(|(i, (ex, _, _))| {
+                format!("({} p{} {})", exp_letter(ex), i, if discs.iter().any(|d| d.0 == i) { "some" } else { "none" })
+            })
+            .collect();
+        let got = format!(
+            "({} {} {} {} ({}))",
+            if v.get("done").and_then(|x| x.as_bool()).unwrap_or(false) { "t" } else { "f" },
+            v.get("state_count").and_then(|x| x.as_u64()).unwrap_or(u64::MAX),
+            v.get("unique_state_count").and_then(|x| x.as_u64()).unwrap_or(u64::MAX),
+            v.get("max_depth").and_then(|x| x.as_u64()).unwrap_or(u64::MAX),
+            ptxt.join(" ")
+        );
+        em.m.push((format!("status0 {} {}", gsx, fsx), got));
+        if !v.get("recent_path").map(|x| x.is_null()).unwrap_or(false) {
+            em.v.push(("recent-path".into(), format!("recent_path before any evaluation: {:?}", v.get("recent_path"))));
+        }
+        if is_graph && v.get("model").and_then(|x| x.as_str()) != Some("srh::graph_small::GraphModel") {
+            em.v.push(("model-name".into(), format!("{:?}", v.get("model"))));
+        }
+    }
+    // ---- /.states for every valid path up to depth 4 + mutations ----------------------------
+    let cap = if thorough { 120 } else { 50 };
+    let mut valid = e.paths(4, 4000);
+    if valid.len() > cap {
+        // keep the short ones, sample the rest
+        let mut keep: Vec<Vec<usize>> = valid.iter().filter(|p| p.len() <= 2).cloned().collect();
+        let mut rest: Vec<Vec<usize>> = valid.into_iter().filter(|p| p.len() > 2).collect();
+        r.shuffle(&mut rest);
+        keep.extend(rest.into_iter().take(cap.saturating_sub(keep.len())));
+        valid = keep;
+        em.stat("explorer-models-with-sampled-paths", 1);
+    }
+    let mut urls: Vec<(String, Option<Vec<usize>>)> = vec![(String::new(), Some(vec![])), ("/".into(), Some(vec![]))];
+    for p in &valid {
+        urls.push((e.url(p), Some(p.clone())));
+    }
+    // mutations
+    let n_mut = if thorough { 30 } else { 14 };
+    for k in 0..n_mut {
+        if valid.is_empty() {
+            break;
+        }
+        let p = r.pick(&valid).clone();
+        let mut segs: Vec<String> = p.iter().map(|s| e.fps[*s].to_string()).collect();
+        match k % 14 {
+            0 => segs[r.below(p.len())] = (r.next() | 1).to_string(),
+            1 => {
+                let i = r.below(p.len());
+                segs[i] = e.fps[r.below(e.fps.len())].to_string();
+            }
+            2 => {
+                segs.remove(0);
+            }
+            3 => segs[r.below(p.len())] = "abc".into(),
+            4 => {
+                let i = r.below(p.len());
+                segs[i] = format!("{}x", segs[i]);
+            }
+            5 => segs[r.below(p.len())] = String::new(),
+            6 => segs[r.below(p.len())] = "0".into(),
+            7 => {
+                let i = r.below(p.len());
+                segs[i] = format!("+{}", segs[i]);
+            }
+            8 => {
+                let i = r.below(p.len());
+                segs[i] = format!("00{}", segs[i]);
+            }
+            9 => segs[r.below(p.len())] = "18446744073709551616".into(),
+            10 => {
+                if p.len() >= 2 {
+                    let i = r.below(p.len() - 1);
+                    segs.swap(i, i + 1);
+                } else {
+                    segs.push(segs[0].clone());
+                }
+            }
+            11 => segs[r.below(p.len())] = "-5".into(),
+            12 => segs.push(e.fps[r.below(e.fps.len())].to_string()),
+            _ => segs.reverse(),
+        }
+        let mut u: String = segs.iter().map(|s| format!("/{}", s)).collect();
+        match r.below(6) {
+            0 => u.push('/'),
+            1 => u.push_str("//"),
+            2 => u = u[1..].to_string(), // no leading slash: "/.states123/456"
+            _ => {}
+        }
+        urls.push((u, None));
+    }
+    urls.push(("xyz".into(), None));
+    urls.push(("//".into(), None));
+    let mut n404 = 0;
+    for (u, known) in &urls {
+        let (status, body) = match get(&format!("/.states{}", u)) {
+            Ok(x) => x,
+            Err(err) => {
+                em.v.push(("hang".into(), format!("GET /.states{}: {}", u, err)));
+                return em;
+            }
+        };
+        let res = canon_states_answer(e, status, &body, is_graph, is_graph, &mut em);
+        em.m.push((format!("view {} {} {} {}", gsx, fsx, hex(u), mode), res.model_form.clone()));
+        em.o.push(format!("o-view {} {} {} {} {}", gsx, fsx, hex(u), mode, res.oracle_form));
+        if status == 404 {
+            n404 += 1;
+        }
+        // the harness's own walk (valid paths only): rows = actions/next_state at the final state
+        if let Some(p) = known {
+            let mut want: Vec<String> = if p.is_empty() {
+                e.init.iter().map(|s| format!("(i {})", s)).collect()
+            } else {
+                e.edges[*p.last().unwrap()]
+                    .iter()
+                    .map(|(l, t)| match t {
+                        Some(t) => format!("({} {})", l, t),
+                        None => format!("({} x)", l),
+                    })
+                    .collect()
+            };
+            if !is_graph {
+                want.sort();
+            }
+            let want = format!("({})", want.join(" "));
+            if res.oracle_form != want {
+                em.v.push(("states-view".into(), format!("GET /.states{} gave {} but the model's actions/next_state give {}", u, res.oracle_form, want)));
+            }
+            em.stat(&format!("explorer-valid-path-depth-{}", p.len()), 1);
+        }
+        // discoveries shown in rows are racy but must be genuine
+        for p in &res.props {
+            let d = canon_props(e, p, &mut em, "states row");
+            if !d.is_empty() {
+                em.o.push(format!("o-disc {} {} f ()", gsx, discs_sx(&d)));
+                em.stat("explorer-row-discoveries-checked", 1);
+            }
+        }
+        em.distinct.push(format!("{}|{}", gsx, u));
+    }
+    em.stat("explorer-states-requests", urls.len() as u64);
+    em.stat("explorer-404", n404);
+    if extra_http {
+        for (meth, path, want) in [("GET", "/", 200u16), ("GET", "/app.js", 200), ("GET", "/nope", 404), ("POST", "/.states", 404), ("POST", "/.status", 404)] {
+            match http(port, meth, path) {
+                Ok((s, _)) if s == want => {}
+                other => em.v.push(("http-route".into(), format!("{} {} -> {:?}, expected {}", meth, path, other.map(|x| x.0), want))),
+            }
+        }
+    }
+    // ---- run to completion ------------------------------------------------------------------
+    match http(port, "POST", "/.runtocompletion") {
+        Ok((200, _)) => {}
+        other => em.v.push(("runtocompletion".into(), format!("POST /.runtocompletion -> {:?}", other.map(|x| x.0)))),
+    }
+    let t0 = Instant::now();
+    let mut fin = None;
+    while t0.elapsed() < Duration::from_secs(8) {
+        if let Ok((200, body)) = get("/.status") {
+            if let Ok(v) = serde_json::from_slice::<serde_json::Value>(&body) {
+                if v.get("done").and_then(|x| x.as_bool()) == Some(true) {
+                    fin = Some(v);
+                    break;
+                }
+            }
+        }
+        std::thread::sleep(Duration::from_millis(10));
+    }
+    match fin {
+        None => em.v.push(("hang".into(), format!("Explorer status not done 8 s after POST /.runtocompletion ({} {})", kind, spec))),
+        Some(_) => {
+            // a moment later the worker has certainly stopped writing: read the final numbers
+            std::thread::sleep(Duration::from_millis(30));
+            if let Ok((200, body)) = get("/.status") {
+                if let Ok(v) = serde_json::from_slice::<serde_json::Value>(&body) {
+                    let props = v.get("properties").cloned().unwrap_or(serde_json::Value::Null);
+                    let discs = canon_props(e, &props, &mut em, "final status");
+                    let sc = v.get("state_count").and_then(|x| x.as_u64()).unwrap_or(0);
+                    let uc = v.get("unique_state_count").and_then(|x| x.as_u64()).unwrap_or(0);
+                    let md = v.get("max_depth").and_then(|x| x.as_u64()).unwrap_or(0);
+                    let complete = discs.len() < e.props.len();
+                    em.o.push(format!("o-disc {} {} {} ({} {})", gsx, discs_sx(&discs), if complete { "t" } else { "f" }, sc, uc));
+                    em.stat(if complete { "explorer-final-exhaustive" } else { "explorer-final-all-discovered" }, 1);
+                    em.stat("explorer-final-discoveries", discs.len() as u64);
+                    if uc > sc || md > uc {
+                        em.v.push(("status-counts".into(), format!("unique {} > total {} or depth {} > unique", uc, sc, md)));
+                    }
+                    // finishes like BFS
+                    if complete && bfs.exhaustive {
+                        let mut names: Vec<&str> = discs.iter().map(|d| e.props[d.0].1).collect();
+                        names.sort();
+                        let safety = |ns: &[&str]| -> Vec<String> {
+                            ns.iter().filter(|n| e.props.iter().any(|p| p.1 == **n && p.0 != Expectation::Eventually)).map(|n| n.to_string()).collect()
+                        };
+                        if uc as usize != bfs.unique || sc as usize != bfs.state_count || safety(&names) != safety(&bfs.discovered) {
+                            em.v.push((
+                                "finishes-like-bfs".into(),
+                                format!("on-demand via Explorer: unique={} total={} discoveries={:?}; BFS: unique={} total={} discoveries={:?}", uc, sc, names, bfs.unique, bfs.state_count, bfs.discovered),
+                            ));
+                        }
+                        em.stat("explorer-final-compared-with-bfs", 1);
+                    }
+                    // recent_path: a valid action list (GraphModel only: the text can be parsed)
+                    if let Some(rp) = v.get("recent_path").and_then(|x| x.as_str()) {
+                        em.stat("explorer-recent-path-present", 1);
+                        if is_graph {
+                            let inner = rp.trim_start_matches('[').trim_end_matches(']');
+                            let labels: Option<Vec<usize>> = if inner.is_empty() {
+                                Some(vec![])
+                            } else {
+                                inner.split(", ").map(|a| e.labels.iter().position(|l| l == a)).collect()
+                            };
+                            let ok = match labels {
+                                None => false,
+                                Some(ls) => e.init.iter().any(|s0| {
+                                    let mut s = *s0;
+                                    ls.iter().all(|l| match e.edges[s].iter().find(|(l2, _)| l2 == l).and_then(|(_, t)| *t) {
+                                        Some(t) => {
+                                            s = t;
+                                            true
+                                        }
+                                        None => false,
+                                    })
+                                }),
+                            };
+                            if !ok {
+                                em.v.push(("recent-path".into(), format!("recent_path {} is not an action list of the model", rp)));
+                            }
+                        }
+                    }
+                }
+            }
+        }
+    }
+    drop(child);
+    em.sample = Some(format!("explorer {} {}: {} states, {} /.states requests ({} answered 404), final status compared", kind, if is_graph { &gsx } else { spec }, e.fps.len(), urls.len(), n404));
+    em
+}
+
+// =============================================================================================
+// Path API, in process
+
+fn path_api_cases(g: &GraphModel, e: &Explicit, r: &mut Rng, out: &mut Out, n: usize) {
+    let gsx = e.sx();
+    let fsx = e.fps_sx();
+    let sid = |s: u16| e.texts.iter().position(|t| *t == s.to_string());
+    let lid = |a: &srh::graph_small::Act| e.labels.iter().position(|l| *l == format!("{:?}", a));
+    for k in 0..n {
+        let wl = r.below(7);
+        let walk = g.random_walk(r, wl);
+        let s0 = walk[0].0;
+        let mut acts: Vec<srh::graph_small::Act> = walk.iter().filter_map(|(_, a)| *a).collect();
+        let mut init = s0;
+        // error branches: a wrong action somewhere / a start state that is not initial
+        let mutate = k % 4;
+        if mutate == 1 && !acts.is_empty() {
+            let i = r.below(acts.len());
+            acts[i] = srh::graph_small::Act(r.below(5) as u8);
+        } else if mutate == 2 {
+            init = r.below(g.n) as u16;
+        } else if mutate == 3 {
+            acts.push(srh::graph_small::Act(r.below(4) as u8));
+        }
+        let res = std::panic::catch_unwind(|| Path::from_actions(g, init, acts.iter()));
+        let (i_id, a_ids) = match (sid(init), acts.iter().map(|a| lid(a)).collect::<Option<Vec<usize>>>()) {
+            (Some(i), Some(a)) => (i, a),
+            // a state/label that does not occur in the unfolding cannot be named on the wire; the
+            // implementation must answer None for it (checked here directly)
+            _ => {
+                if !matches!(res, Ok(None)) {
+                    out.v("from-actions-unknown", &format!("{} init {} acts {:?}: expected None", g.sx(), init, acts));
+                }
+                out.stat("from-actions-unnameable");
+                continue;
+            }
+        };
+        let a_sx = srh::sx::nums(a_ids.iter());
+        match res {
+            Err(_) => {
+                out.m(&format!("path-fromacts {} {} {}", gsx, i_id, a_sx), "panic");
+                out.stat("from-actions-panic");
+            }
+            Ok(None) => {
+                out.m(&format!("path-fromacts {} {} {}", gsx, i_id, a_sx), "none");
+                out.stat("from-actions-none");
+            }
+            Ok(Some(p)) => {
+                let v = p.clone().into_vec();
+                let txt: Vec<String> = v
+                    .iter()
+                    .flat_map(|(s, a)| {
+                        let mut x = vec![sid(*s).map(|i| i.to_string()).unwrap_or("?".into())];
+                        if let Some(a) = a {
+                            x.push(lid(a).map(|i| i.to_string()).unwrap_or("?".into()));
+                        }
+                        x
+                    })
+                    .collect();
+                out.m(&format!("path-fromacts {} {} {}", gsx, i_id, a_sx), &format!("({})", txt.join(" ")));
+                let states: Vec<String> = p.clone().into_states().iter().map(|s| sid(*s).unwrap().to_string()).collect();
+                let actions: Vec<String> = p.clone().into_actions().iter().map(|a| lid(a).unwrap().to_string()).collect();
+                let enc = p.encode();
+                out.m(
+                    &format!("path-encode {} {} {} {}", gsx, fsx, i_id, a_sx),
+                    &format!("({} ({}) ({}) {})", enc, states.join(" "), actions.join(" "), sid(*p.last_state()).unwrap()),
+                );
+                // round trips, directly: encoded form -> final state; vec form == into_states/actions
+                if v.iter().map(|x| x.0).collect::<Vec<_>>() != p.clone().into_states() || v.iter().filter_map(|x| x.1).collect::<Vec<_>>() != p.clone().into_actions() {
+                    out.v("path-into", &format!("into_vec disagrees with into_states/into_actions for {:?}", v));
+                }
+                if v.last().map(|x| x.0) != Some(*p.last_state()) {
+                    out.v("path-last-state", &format!("{:?}", v));
+                }
+                // rebuilding from the path's own actions gives the same path
+                let again = Path::from_actions(g, v[0].0, p.clone().into_actions().iter());
+                if again.as_ref() != Some(&p) {
+                    out.v("path-actions-roundtrip", &format!("{:?} rebuilt as {:?}", p, again));
+                }
+                // the encoded form, decoded by the model's final_state, must be the last state
+                let fps_list: Vec<String> = enc.split('/').map(|x| x.to_string()).collect();
+                out.m(&format!("path-final {} {} ({})", gsx, fsx, fps_list.join(" ")), &sid(*p.last_state()).unwrap().to_string());
+                out.stat(&format!("path-len-{}", v.len().min(8)));
+                out.stat("from-actions-some");
+                out.distinct(&(20u8, g.sx(), init, acts.iter().map(|a| a.0).collect::<Vec<_>>()));
+            }
+        }
+    }
+}
+
+// =============================================================================================
+// on-demand checker, driven directly
+
+fn wait_until(limit: Duration, mut f: impl FnMut() -> bool) -> bool {
+    let t0 = Instant::now();
+    while t0.elapsed() < limit {
+        if f() {
+            return true;
+        }
+        std::thread::sleep(Duration::from_millis(2));
+    }
+    f()
+}
+
+fn on_demand_case(g0: &GraphModel, r: &mut Rng, out: &mut Out, threads: usize) {
+    // an always-true property keeps the checker listening (see the oracle's precondition)
+    let mut g = g0.clone();
+    if g.props.len() == 5 {
+        g.props.pop();
+    }
+    g.props.push((Expectation::Always, g.all_mask()));
+    let e = match explicit(&g, 64) {
+        Some(e) => e,
+        None => return,
+    };
+    let gsx = e.sx();
+    let fsx = e.fps_sx();
+    let sid = |s: u16| e.texts.iter().position(|t| *t == s.to_string());
+    let (rec, acc) = StateRecorder::new_with_accessor();
+    let checker = g.clone().checker().threads(threads).visitor(rec).spawn_on_demand();
+    let nz = |fp: u64| std::num::NonZeroU64::new(fp).unwrap();
+    // the harness's own simulation of pending / generated (mirrors the declarative oracle)
+    let mut pend: Vec<u16> = g.init_b();
+    let mut gen: Vec<u16> = Vec::new();
+    for s in &pend {
+        if !gen.contains(s) {
+            gen.push(*s);
+        }
+    }
+    let mut expect: Vec<u16> = Vec::new();
+    let mut reqs: Vec<u64> = Vec::new();
+    let order = r.below(5); // 0..2: requests then run; 3: run first; 4: only run
+    let n_req = if order >= 3 { r.below(3) } else { r.below(10) };
+    let all_fps = g.fps();
+    let mut kinds = [0u64; 4];
+    if order < 3 && threads == 1 {
+        for _ in 0..n_req {
+            let fp = match r.below(10) {
+                0..=5 if !pend.is_empty() => {
+                    kinds[0] += 1;
+                    all_fps[*r.pick(&pend) as usize]
+                }
+                6 if !expect.is_empty() => {
+                    kinds[1] += 1;
+                    all_fps[*r.pick(&expect) as usize] // already evaluated (may be pending again as a duplicate init)
+                }
+                7 => {
+                    kinds[2] += 1;
+                    r.next() | 1 // unknown fingerprint
+                }
+                _ => {
+                    kinds[3] += 1;
+                    all_fps[r.below(g.n)] // any state: maybe not generated yet
+                }
+            };
+            reqs.push(fp);
+            if let Some(i) = pend.iter().position(|s| all_fps[*s as usize] == fp) {
+                let s = pend.remove(i);
+                expect.push(s);
+                for t in g.succ_b(s) {
+                    if !gen.contains(&t) {
+                        gen.push(t);
+                        pend.push(t);
+                    }
+                }
+            }
+            if pend.is_empty() {
+                break; // the worker leaves once nothing is pending
+            }
+        }
+        for fp in &reqs {
+            checker.check_fingerprint(nz(*fp));
+        }
+        let ok = wait_until(Duration::from_secs(3), || acc().len() >= expect.len());
+        std::thread::sleep(Duration::from_millis(15)); // anything evaluated beyond the requests would show up now
+        let seen = acc();
+        if !ok {
+            out.v("on-demand-targeted", &format!("{} requests {:?}: evaluated {:?}, expected {:?} (3 s)", g.sx(), reqs, seen, expect));
+        }
+        let seen_ids: Vec<String> = seen.iter().map(|s| sid(*s).map(|i| i.to_string()).unwrap_or("?".into())).collect();
+        out.o(&format!("o-ondemand {} {} {} ({})", gsx, fsx, srh::sx::nums(reqs.iter()), seen_ids.join(" ")));
+        out.stat_n("on-demand-req-pending", kinds[0]);
+        out.stat_n("on-demand-req-already-evaluated", kinds[1]);
+        out.stat_n("on-demand-req-unknown-fingerprint", kinds[2]);
+        out.stat_n("on-demand-req-arbitrary-state", kinds[3]);
+        out.stat(&format!("on-demand-targeted-evaluations-{}", expect.len().min(6)));
+        if !pend.is_empty() && checker.is_done() && !expect.is_empty() {
+            out.v("on-demand-done-early", &format!("{}: is_done with pending states {:?} before run_to_completion", g.sx(), pend));
+        }
+    }
+    // run to completion (twice / with late requests in some orders)
+    checker.run_to_completion();
+    if order == 3 {
+        for _ in 0..n_req {
+            checker.check_fingerprint(nz(all_fps[r.below(g.n)]));
+        }
+        checker.run_to_completion();
+    }
+    if !wait_until(Duration::from_secs(6), || checker.is_done()) {
+        out.v("hang", &format!("on-demand checker not done 6 s after run_to_completion: {} threads={}", g.sx(), threads));
+        std::mem::forget(checker);
+        return;
+    }
+    // is_done may be reported a moment before the worker has finished its block: join with a watchdog
+    let (tx, rx) = std::sync::mpsc::channel();
+    std::thread::spawn(move || {
+        let c = checker.join();
+        let mut discs: Vec<(&'static str, Vec<u16>)> = c.discoveries().into_iter().map(|(n, p)| (n, p.into_states())).collect();
+        discs.sort();
+        let _ = tx.send((c.unique_state_count(), c.state_count(), c.max_depth(), discs));
+    });
+    let (uc, sc, _md, discs) = match rx.recv_timeout(Duration::from_secs(6)) {
+        Ok(x) => x,
+        Err(_) => {
+            out.v("hang", &format!("join() of an on-demand checker did not return within 6 s: {} threads={}", g.sx(), threads));
+            return;
+        }
+    };
+    let visited = acc();
+    // like BFS
+    let (rec2, acc2) = StateRecorder::new_with_accessor();
+    let b = g.clone().checker().visitor(rec2).spawn_bfs().join();
+    let mut vs: Vec<u16> = visited.clone();
+    vs.sort();
+    vs.dedup();
+    let mut bs: Vec<u16> = acc2();
+    bs.sort();
+    bs.dedup();
+    let mut bd: Vec<&'static str> = b.discoveries().keys().copied().collect();
+    bd.sort();
+    let safety = |ns: Vec<&'static str>| -> Vec<&'static str> {
+        ns.into_iter().filter(|n| g.properties().iter().any(|p| p.name == *n && p.expectation != Expectation::Eventually)).collect()
+    };
+    let od_names: Vec<&'static str> = discs.iter().map(|d| d.0).collect();
+    if vs != bs || uc != b.unique_state_count() || sc != b.state_count() || safety(od_names.clone()) != safety(bd.clone()) {
+        out.v(
+            "finishes-like-bfs",
+            &format!("{} threads={}: on-demand evaluated {:?} unique={} total={} discoveries={:?}; BFS evaluated {:?} unique={} total={} discoveries={:?}", g.sx(), threads, vs, uc, sc, od_names, bs, b.unique_state_count(), b.state_count(), bd),
+        );
+    }
+    let d_ids: Vec<(usize, Vec<usize>)> = discs
+        .iter()
+        .map(|(n, p)| (g.properties().iter().position(|q| q.name == *n).unwrap(), p.iter().map(|s| sid(*s).unwrap_or(usize::MAX)).collect()))
+        .collect();
+    out.o(&format!("o-disc {} {} t ({} {})", gsx, discs_sx(&d_ids), sc, uc));
+    out.stat(&format!("on-demand-order-{}", order));
+    out.stat(&format!("on-demand-threads-{}", threads));
+    out.stat_n("on-demand-states-evaluated", visited.len() as u64);
+    out.distinct(&(21u8, g.sx(), reqs.clone(), order, threads));
+}
+
+// =============================================================================================
+
 fn main() {
-    let out = Out::new();
+    let args: Vec<String> = std::env::args().collect();
+    if args.len() > 1 && args[1] == "--child-serve" {
+        child_serve(&args[2..]);
+    }
+    quiet_panics();
+    let mut out = Out::new();
+    out.max_samples = 8;
+    let thorough = thorough();
+    let mut rng = Rng::new(seed());
+    let only = arg_str("--only");
+    let cfg = GenCfg { max_states: 8, ..GenCfg::default() };
+
+    // ---- Path API ------------------------------------------------------------------------------
+    if only.is_none() || only.as_deref() == Some("path") {
+        let n_models = if thorough { 1500 } else { 150 };
+        for _ in 0..n_models {
+            let g = GraphModel::random(&mut rng, &cfg);
+            if let Some(e) = explicit(&g, 64) {
+                path_api_cases(&g, &e, &mut rng, &mut out, 8);
+            }
+        }
+        out.sample("path api: random executions of random GraphModels through from_actions / encode / into_* / last_state, plus broken action lists and non-initial start states");
+    }
+
+    // ---- on-demand directly ----------------------------------------------------------------------
+    if only.is_none() || only.as_deref() == Some("ondemand") {
+        let n_models = if thorough { 1500 } else { 150 };
+        for k in 0..n_models {
+            let g = GraphModel::random(&mut rng, &cfg);
+            let threads = if k % 10 == 9 { 2 } else { 1 };
+            on_demand_case(&g, &mut rng, &mut out, threads);
+        }
+        out.sample("on-demand: spawn_on_demand + seeded check_fingerprint / run_to_completion orders, visitor log vs declarative pending set, final result vs spawn_bfs");
+    }
+
+    // ---- Explorer over HTTP ------------------------------------------------------------------------
+    if only.is_none() || only.as_deref() == Some("explorer") {
+        let n_graphs = arg_u64("--models", if thorough { 1000 } else { 60 }) as usize;
+        let actor_specs: Vec<String> = {
+            let mut v = Vec::new();
+            for max in [0, 1] {
+                for net in ["ordered", "nondup", "dup"] {
+                    for lossy in ["n", "y"] {
+                        for timer in ["n", "y"] {
+                            v.push(format!("{}:{}:{}:{}", max, net, lossy, timer));
+                        }
+                    }
+                }
+            }
+            let mut r2 = rng.fork();
+            r2.shuffle(&mut v);
+            v.truncate(if thorough { 24 } else { 4 });
+            v
+        };
+        // work list
+        enum Job {
+            G(GraphModel),
+            A(String),
+        }
+        let mut jobs: Vec<(Job, Rng)> = Vec::new();
+        for _ in 0..n_graphs {
+            let g = GraphModel::random(&mut rng, &cfg);
+            jobs.push((Job::G(g), rng.fork()));
+        }
+        for s in actor_specs {
+            jobs.push((Job::A(s), rng.fork()));
+        }
+        let n_jobs = jobs.len();
+        let jobs = Arc::new(Mutex::new(jobs.into_iter().enumerate().collect::<Vec<_>>()));
+        let results: Arc<Mutex<Vec<(usize, Emit)>>> = Arc::new(Mutex::new(Vec::new()));
+        let par = if thorough { 12 } else { 8 };
+        for _ in 0..par {
+            let jobs = jobs.clone();
+            let results = results.clone();
+            std::thread::spawn(move || loop {
+                let job = jobs.lock().unwrap().pop();
+                let (idx, (job, mut r)) = match job {
+                    Some(j) => j,
+                    None => break,
+                };
+                let em = match job {
+                    Job::G(g) => match explicit(&g, 64) {
+                        Some(e) => {
+                            let bfs = bfs_reference(g.clone());
+                            explorer_session("g", &g.sx(), &e, &bfs, &mut r, thorough, idx % 16 == 0)
+                        }
+                        None => Emit::default(),
+                    },
+                    Job::A(spec) => {
+                        let m = actor_model(&spec);
+                        match explicit(&m, 3000) {
+                            Some(e) => {
+                                let bfs = bfs_reference(actor_model(&spec));
+                                let mut em = explorer_session("a", &spec, &e, &bfs, &mut r, thorough, false);
+                                em.stat("explorer-actor-systems", 1);
+                                em.stat("explorer-actor-system-states", e.fps.len() as u64);
+                                em
+                            }
+                            None => {
+                                let mut em = Emit::default();
+                                em.stat("explorer-actor-system-too-big", 1);
+                                em
+                            }
+                        }
+                    }
+                };
+                results.lock().unwrap().push((idx, em));
+            });
+        }
+        let t0 = Instant::now();
+        let limit = Duration::from_secs(if thorough { 420 } else { 90 });
+        loop {
+            if results.lock().unwrap().len() >= n_jobs {
+                break;
+            }
+            if t0.elapsed() > limit {
+                out.v("hang", &format!("Explorer sessions did not finish within {:?} ({} of {} done)", limit, results.lock().unwrap().len(), n_jobs));
+                break;
+            }
+            std::thread::sleep(Duration::from_millis(20));
+        }
+        let mut res = std::mem::take(&mut *results.lock().unwrap());
+        res.sort_by_key(|x| x.0);
+        for (_, em) in res {
+            for (q, a) in &em.m {
+                out.m(q, a);
+            }
+            for q in &em.o {
+                out.o(q);
+            }
+            for (k, t) in &em.v {
+                out.v(k, t);
+            }
+            for (k, n) in &em.stats {
+                out.stat_n(k, *n);
+            }
+            if let Some(s) = &em.sample {
+                out.sample(s);
+            }
+            for d in &em.distinct {
+                out.distinct(&(22u8, d));
+            }
+            out.stat("explorer-sessions");
+        }
+    }
     out.finish();
+    std::process::exit(0);
 }
